@@ -22,6 +22,10 @@ STANDARD = {
     "[n+]R":  ("N", 0, 1, True, "R", (2,)),
     "[n+]3":  ("N", 0, 1, True, None, (3,)),
     "c=O":    ("C", None, 0, False, "=X", (2,)),
+    # bracket spellings of the same atoms as n, o, s (no H, no charge): same kinds, same completeness claim
+    "[n]":    ("N", 0, 0, True, None, (2,)),
+    "[o]":    ("O", 0, 0, False, None, (2,)),
+    "[s]":    ("S", 0, 0, False, None, (2,)),
 }
 # correctness-if-accepted and order independence only (completeness not claimed)
 ANCHORED = {
@@ -36,10 +40,7 @@ ANCHORED = {
     "[c]":    ("C", 0, 0, True, None, (2, 3)),
     "[cH]":   ("C", 1, 0, True, None, (2,)),
     "[n-]":   ("N", 0, -1, False, None, (2,)),
-    "[n]":    ("N", 0, 0, True, None, (2,)),
     "[bH-]":  ("B", 1, -1, True, None, (2,)),
-    "[o]":    ("O", 0, 0, False, None, (2,)),
-    "[s]":    ("S", 0, 0, False, None, (2,)),
 }
 EXOTIC = {
     "[si]":   ("Si", 0, 0, None, None, (2, 3)),
@@ -64,7 +65,7 @@ ALL_KINDS.update(STANDARD)
 ALL_KINDS.update(ANCHORED)
 ALL_KINDS.update(EXOTIC)
 
-STD2 = ["c"] * 10 + ["cR", "cR", "n", "n", "o", "s", "[nH]", "nR", "[n+]R", "c=O", "p"]
+STD2 = ["c"] * 10 + ["cR", "cR", "n", "n", "o", "s", "[nH]", "nR", "[n+]R", "c=O", "p", "[n]", "[n]", "[o]", "[s]"]
 STD3 = ["c"] * 8 + ["n3", "[n+]3"]
 
 
